@@ -49,6 +49,13 @@ def _inline_only_helper(model: Model, qualname: str, name: str) -> bool:
     return bool(refs) and all(id(n) in called for n in refs)
 
 
+def _ite_leaves(t: T.Term, cond: T.Term = T.TRUE):
+    """(path condition, alternative) for a value picked by nested conditions."""
+    if t[0] == "ite":
+        return _ite_leaves(t[2], T.mk_and([cond, t[1]])) + _ite_leaves(t[3], T.mk_and([cond, T.mk_not(t[1])]))
+    return [(cond, t)]
+
+
 def submitted_task(model: Model, cls: str, t: T.Term):
     """FuncInfo of a bound helper method `self.<m>` handed to _submit (None for anything else)."""
     if t[0] == "sym" and t[1].startswith("self.") and t[1].count(".") == 1:
@@ -277,7 +284,8 @@ def rule_thread_affinity(chk: Check, view: AsyncView, rid: str):
                     ok = e.recv == S("self")
                     why = "closure submitted to another object's executor"
                 else:
-                    ok = f == T.mk_attr(e.recv, f[2] if f[0] == "attr" else f[1].rsplit(".", 1)[-1])
+                    # (one of two methods picked by a condition: both must be the receiver's own)
+                    ok = all(lf[0] in ("attr", "sym") and lf == T.mk_attr(e.recv, lf[2] if lf[0] == "attr" else lf[1].rsplit(".", 1)[-1]) for _, lf in _ite_leaves(f))
                     why = f"{T.show(e.recv)}._submit is given {T.show(f)[:100]}: the task would run on the wrong executor"
                 chk.add(rid, f"submit:{key}:{T.show(f)[:60].split('.')[-1]}:{_recv_tag(e.recv)}", ok, why if not ok else "bound method of the receiver", chk.loc(view.fi(key), e.node))
     chk.floor(rid, "_submit sites", n_sub, 12)
@@ -553,6 +561,16 @@ def rule_enqueue_trigger(chk: Check, view: AsyncView, rid: str):
                     continue
                 m = t.name.split(".")[-1]
                 tgt = None
+                if m == "_submit" and t.args and t.args[0][0] == "ite":
+                    # the submitted method picked by a condition: each alternative triggers on its side of the condition
+                    trc = view.recv_class(key, t.recv)
+                    towner = me if trc == "self" else trc
+                    for cnd, lf in _ite_leaves(t.args[0]):
+                        tname = lf[2] if lf[0] == "attr" else (lf[1].split(".")[-1] if lf[0] == "sym" else None)
+                        tg = f"{towner}.{tname}" if towner and tname else None
+                        if tg in reach and (reach[tg] & poppers) and not (e.loops and t.loops and t.loops[: len(e.loops)] != e.loops):
+                            trig_guards.append(T.assume(T.mk_and([t.guard, cnd]), T.eq(STATE, st("RUNNING"), numeric=False), True))
+                    continue
                 if m == "_submit" and t.args:
                     f = t.args[0]
                     trc = view.recv_class(key, t.recv)
